@@ -30,9 +30,13 @@ git apply "$OUT/patch.diff"
 } 2>&1 | tee "$OUT/confirm.log"
 cd /verif
 git -C /repo apply "$OUT/patch.diff" || { echo "patch does not apply to /repo"; exit 2; }
+# evidence written while a seeded change is applied is not evidence about /repo: keep the real files aside
+EVBAK=$(mktemp -d /tmp/evidence-bak.XXXX); cp -a /verif/evidence/. "$EVBAK/"
 for P in $PROPS; do
   echo "== check $P against the change"
   ./check "$P" quick 2>&1 | grep -E "VIOLATION|oracle=|violations=|INCONCLUSIVE" | cut -c1-300 | tee -a "$OUT/checks.log"
 done
 git -C /repo checkout -- .
+cp -a "$EVBAK/." /verif/evidence/; rm -rf "$EVBAK"
+for P in $PROPS; do rm -f /verif/replays/${P}-*.json 2>/dev/null; done
 git -C /repo status --short
